@@ -185,6 +185,10 @@ func ruleLayerOrder(c *Ctx, r *Reporter) {
 					r.OK(name, c.InsPos(ins), "reset to a fresh slice")
 					return
 				}
+				if returnsFreshEmptySlice(st.Val) {
+					r.OK(name, c.InsPos(ins), "reset to a fresh slice (made by a helper)")
+					return
+				}
 				if ctorOnly[topParent(fn)] {
 					r.OK(name, c.InsPos(ins), "constructor-only code")
 					return
@@ -224,6 +228,10 @@ func ruleLayerOrder(c *Ctx, r *Reporter) {
 				}
 			case *ssa.Const:
 				resets = append(resets, st)
+			default:
+				if returnsFreshEmptySlice(st.Val) {
+					resets = append(resets, st)
+				}
 			}
 		})
 		if len(resets) == 0 {
@@ -575,4 +583,31 @@ func flowsToFlush(c *Ctx, v ssa.Value, a *stAnchors, d int, seen map[ssa.Value]b
 		}
 	}
 	return false
+}
+
+// returnsFreshEmptySlice: v is a call to a function of the analysed module whose every return is make(T, 0, ...).
+func returnsFreshEmptySlice(v ssa.Value) bool {
+	call, ok := v.(*ssa.Call)
+	if !ok {
+		return false
+	}
+	f := call.Call.StaticCallee()
+	if f == nil || len(f.Blocks) == 0 {
+		return false
+	}
+	n := 0
+	for _, ret := range Returns(f) {
+		if len(ret.Results) != 1 {
+			return false
+		}
+		mk, ok := ret.Results[0].(*ssa.MakeSlice)
+		if !ok {
+			return false
+		}
+		if k, ok := constInt(mk.Len); !ok || k != 0 {
+			return false
+		}
+		n++
+	}
+	return n > 0
 }
